@@ -539,3 +539,27 @@ pub enum Response {
     Immutable(Box<[u8]>),
     Mutable(MutableItem),
 }
+
+#[cfg(mainline_verif)]
+impl Core {
+    /// Verification hook: projection of the lookup cache (most recently used first).
+    pub fn verif_cache(&self) -> Vec<crate::verif::CacheSnap> {
+        self.cached_iterative_queries
+            .iter()
+            .map(|(k, c)| crate::verif::CacheSnap {
+                target: k.to_string(),
+                find_node: matches!(c.request_type, RequestTypeSpecific::FindNode(_)),
+                signed: matches!(c.request_type, RequestTypeSpecific::GetSignedPeers(_)),
+                nodes: c.closest_responding_nodes.len(),
+                tokens: c
+                    .closest_responding_nodes
+                    .iter()
+                    .filter(|n| n.token().is_some())
+                    .count(),
+                dht_size_estimate: c.dht_size_estimate,
+                responders_dht_size_estimate: c.responders_dht_size_estimate,
+                subnets: c.subnets,
+            })
+            .collect()
+    }
+}
